@@ -3,7 +3,7 @@ import ast
 
 import sympy as sp
 
-from ..astutil import func_params
+from ..astutil import dotted, func_params
 from ..report import RuleDef
 from ..src import AnalysisError
 from ..vg import (App, BoolT, Cmp, Const, Evaluator, Frame, Ite, Obj, Tup,
@@ -363,6 +363,9 @@ def r5(ctx):
         for role, kw in (('inner', ikw), ('outer', okw)):
             orc = shape_oracle(kind, **kw)
             got = conj_list(comp[role])
+            if any(isinstance(g, Cmp) and all(pred_equiv(g, o) == 'unknown' for o in orc) for g in got):
+                raise AnalysisError(f'{ctx.prop}.R5', construct, f'{role} component predicate not comparable: '
+                                    + show(comp[role], 200))
             if len(got) != len(orc) or not all(isinstance(g, Cmp) and any(
                     pred_equiv(g, o) in ('eq', 'strictness') for o in orc) for g in got):
                 ctx.bad(construct, f'{role}-component',
@@ -610,6 +613,222 @@ def r8(ctx):
             ctx.ok(ci.name, 'geometry methods read parameters, properties and class constants only')
 
 
+# ------------------------------------------------------------ integer coordinates (dtype lint)
+FLOAT_FUNCS = {'cos', 'sin', 'tan', 'sqrt', 'hypot', 'arctan2', 'arctan', 'arcsin', 'arccos', 'deg2rad', 'rad2deg',
+               'radians', 'degrees', 'exp', 'log', 'float', 'float64', 'true_divide', 'divide', 'mean', 'linspace'}
+KEEP_FUNCS = {'abs', 'absolute', 'fabs', 'asarray', 'asanyarray', 'atleast_1d', 'atleast_2d', 'array', 'ravel', 'flatten',
+              'reshape', 'squeeze', 'negative', 'add', 'subtract', 'sum', 'min', 'max', 'copy', 'where', 'minimum',
+              'maximum', 'broadcast_arrays'}
+PRODUCT_FUNCS = {'multiply', 'dot', 'inner', 'outer', 'cross', 'prod', 'matmul', 'einsum', 'vdot'}
+POWER_FUNCS = {'square', 'power'}
+KIND_ORDER = {'float': 3, 'coord': 2, 'scalar': 1}
+
+
+class _DtypeLint:
+    """may-be-integer analysis of the arithmetic of one function: PixCoord components (`<pixcoord>.x/.y`) keep the
+    caller's dtype, so they may be int32/int64 arrays; sums and differences of them still are; a product or power of
+    such values wraps around silently (|dx| >= 46341 for int32) unless a factor is floating.  kinds: 'coord' (may be an
+    integer array), 'float' (surely floating: float literal, true division, trig/sqrt/hypot result, Quantity, explicit
+    float dtype), 'scalar' (a Python number or unknown: neither overflows nor promotes)."""
+
+    def __init__(self, ctx, model):
+        self.ctx, self.m = ctx, model
+        self.problems = []          # (FuncInfo, node, text)
+        self.done = {}
+
+    def fn(self, fi, argkinds, depth=0):
+        key = (fi.qualname, tuple(argkinds))
+        if key in self.done:
+            return self.done[key]
+        self.done[key] = 'scalar'
+        env = {}
+        params = [a.arg for a in fi.node.args.args]
+        for p_, k_ in zip(params, argkinds):
+            env[p_] = k_
+        ret = []
+        for st in ast.walk(fi.node):
+            pass
+        self._block(fi, fi.node.body, env, ret, depth)
+        r = max(ret, key=lambda k: KIND_ORDER[k]) if ret else 'scalar'
+        if 'coord' in ret and r == 'float':
+            r = 'coord'          # some return path may be an integer array
+        self.done[key] = r
+        return r
+
+    def _block(self, fi, body, env, ret, depth):
+        for st in body:
+            if isinstance(st, ast.Assign):
+                k = self.kind(fi, st.value, env, depth)
+                for t in st.targets:
+                    if isinstance(t, ast.Name):
+                        env[t.id] = k
+                    elif isinstance(t, (ast.Tuple, ast.List)):
+                        for e in t.elts:
+                            if isinstance(e, ast.Name):
+                                env[e.id] = k
+            elif isinstance(st, ast.AugAssign):
+                if isinstance(st.target, ast.Name):
+                    fake = ast.BinOp(left=ast.Name(id=st.target.id, ctx=ast.Load()), op=st.op, right=st.value)
+                    ast.copy_location(fake, st)
+                    env[st.target.id] = self.kind(fi, fake, env, depth)
+            elif isinstance(st, ast.Return):
+                if st.value is not None:
+                    ret.append(self.kind(fi, st.value, env, depth))
+            elif isinstance(st, ast.Expr):
+                self.kind(fi, st.value, env, depth)
+            elif isinstance(st, (ast.If, ast.While)):
+                self.kind(fi, st.test, env, depth)
+                self._block(fi, st.body, env, ret, depth)
+                self._block(fi, st.orelse, env, ret, depth)
+            elif isinstance(st, ast.For):
+                k = self.kind(fi, st.iter, env, depth)
+                for e in ast.walk(st.target):
+                    if isinstance(e, ast.Name):
+                        env[e.id] = k
+                self._block(fi, st.body, env, ret, depth)
+            elif isinstance(st, (ast.With, ast.Try)):
+                self._block(fi, st.body, env, ret, depth)
+                for h in getattr(st, 'handlers', []):
+                    self._block(fi, h.body, env, ret, depth)
+                self._block(fi, getattr(st, 'orelse', []), env, ret, depth)
+                self._block(fi, getattr(st, 'finalbody', []), env, ret, depth)
+
+    @staticmethod
+    def _join(ks):
+        ks = list(ks)
+        if 'float' in ks:
+            return 'float'
+        return 'coord' if 'coord' in ks else 'scalar'
+
+    def kind(self, fi, n, env, depth):
+        if isinstance(n, ast.Constant):
+            return 'float' if isinstance(n.value, float) else 'scalar'
+        if isinstance(n, ast.Name):
+            return env.get(n.id, 'scalar')
+        if isinstance(n, ast.Attribute):
+            if n.attr in ('x', 'y', 'xy'):
+                return 'coord'
+            if n.attr in ('value',) or n.attr in ('real',):
+                return self.kind(fi, n.value, env, depth)
+            if isinstance(n.value, ast.Name) and n.value.id == 'self' and fi.cls:
+                ci = self.m.modules[fi.module].classes.get(fi.cls)
+                dk = self.m.descriptor_kind(ci, n.attr) if ci is not None else None
+                if dk in ('ScalarAngle', 'PositiveScalarAngle'):
+                    return 'float'           # a Quantity: astropy keeps quantities floating
+            if n.attr in ('T', 'flat'):
+                return self.kind(fi, n.value, env, depth)
+            return 'scalar'
+        if isinstance(n, ast.Subscript):
+            return self.kind(fi, n.value, env, depth)
+        if isinstance(n, ast.UnaryOp):
+            return self.kind(fi, n.operand, env, depth)
+        if isinstance(n, (ast.Tuple, ast.List)):
+            return self._join(self.kind(fi, e, env, depth) for e in n.elts) if n.elts else 'scalar'
+        if isinstance(n, ast.IfExp):
+            self.kind(fi, n.test, env, depth)
+            a, b = self.kind(fi, n.body, env, depth), self.kind(fi, n.orelse, env, depth)
+            return 'coord' if 'coord' in (a, b) else self._join((a, b))
+        if isinstance(n, (ast.Compare, ast.BoolOp)):
+            for c in ast.iter_child_nodes(n):
+                if isinstance(c, ast.expr):
+                    self.kind(fi, c, env, depth)
+            return 'scalar'
+        if isinstance(n, ast.BinOp):
+            a, b = self.kind(fi, n.left, env, depth), self.kind(fi, n.right, env, depth)
+            if isinstance(n.op, ast.Div):
+                return 'float'
+            if isinstance(n.op, (ast.Mult, ast.MatMult)):
+                if a == 'coord' and b == 'coord':
+                    self.problems.append((fi, n, f'`{ast.unparse(n)}` multiplies two values that may be integer arrays'))
+                return self._join((a, b))
+            if isinstance(n.op, ast.Pow):
+                if a == 'coord' and not (isinstance(n.right, ast.Constant) and n.right.value in (0, 1)) and b != 'float':
+                    self.problems.append((fi, n, f'`{ast.unparse(n)}` raises a value that may be an integer array to a power'))
+                return self._join((a, b))
+            return self._join((a, b))
+        if isinstance(n, ast.Call):
+            nm = dotted(n.func) or ''
+            short = nm.split('.')[-1]
+            argk = [self.kind(fi, a_, env, depth) for a_ in n.args]
+            kw = {k.arg: k.value for k in n.keywords if k.arg}
+            for k in n.keywords:
+                self.kind(fi, k.value, env, depth)
+            if 'dtype' in kw:
+                d = ast.unparse(kw['dtype'])
+                return 'float' if 'float' in d else (self._join(argk) if argk else 'scalar')
+            if short == 'astype' and n.args:
+                return 'float' if 'float' in ast.unparse(n.args[0]) else self.kind(fi, n.func.value, env, depth)
+            root_is_lib = nm.split('.')[0] in ('np', 'numpy', 'math') or nm in ('float', 'abs', 'sum', 'min', 'max')
+            if root_is_lib or short in ('float',):
+                if short in FLOAT_FUNCS:
+                    return 'float'
+                if short in POWER_FUNCS and argk and argk[0] == 'coord' and 'float' not in argk[1:]:
+                    self.problems.append((fi, n, f'`{ast.unparse(n)}` squares / raises a value that may be an integer array'))
+                    return 'coord'
+                if short in PRODUCT_FUNCS and argk and all(k == 'coord' for k in argk):
+                    self.problems.append((fi, n, f'`{ast.unparse(n)}` multiplies values that may be integer arrays'))
+                    return 'coord'
+                if short in KEEP_FUNCS or short in POWER_FUNCS or short in PRODUCT_FUNCS:
+                    return self._join(argk) if argk else 'scalar'
+                return 'scalar'
+            # methods on arrays that keep the dtype
+            if isinstance(n.func, ast.Attribute) and short in KEEP_FUNCS | {'astype'}:
+                return self.kind(fi, n.func.value, env, depth)
+            # repository callees: by resolution, else by method name over the repository classes
+            callees = []
+            if depth < 3:
+                try:
+                    callees = list(self.m.resolve_call(fi, n) or [])
+                except Exception:
+                    callees = []
+                if not callees and isinstance(n.func, ast.Attribute):
+                    callees = [c for mi_ in self.m.modules.values() for ci in mi_.classes.values()
+                               for nm_, c in ci.methods.items() if nm_ == short and not c.path.endswith('.pyx')]
+                    callees = callees if len(callees) <= 3 else []
+            if callees:
+                ks = []
+                for c in callees:
+                    if c.path.endswith('.pyx') or c.name.startswith('__'):
+                        continue
+                    bound = isinstance(n.func, ast.Attribute) and c.cls and not c.is_static
+                    recvk = [self.kind(fi, n.func.value, env, depth)] if bound else []
+                    if bound and c.is_classmethod:
+                        recvk = ['scalar']
+                    ks.append(self.fn(c, recvk + argk, depth + 1))
+                if ks:
+                    return 'coord' if 'coord' in ks else self._join(ks)
+            if short == '_validate' and argk:
+                return argk[0]
+            return 'scalar'
+        return 'scalar'
+
+
+def r9(ctx):
+    """integer positions: the membership arithmetic must not multiply or square values that may be integer arrays."""
+    m = ctx.model
+    seen = set()
+    lint = _DtypeLint(ctx, m)
+    n = 0
+    for ci in m.region_classes('pixel'):
+        f = m.method(ci, 'contains')
+        if f is None or f.qualname in seen or m.is_abstract(ci):
+            continue
+        seen.add(f.qualname)
+        n += 1
+        before = len(lint.problems)
+        lint.fn(f, ['scalar', 'scalar'])
+        new = lint.problems[before:]
+        if new:
+            fi, node, text = new[0]
+            ctx.bad(f'{f.cls}.contains', 'integer-overflow',
+                    f'{text} (in {fi.qualname.split(":")[1]}): PixCoord keeps the caller\'s dtype, so for integer positions and an '
+                    'integer centre the product wraps around silently (int32: |offset| >= 46341) and far-away positions are '
+                    'reported inside; convert to float first (np.hypot, a float factor, or dtype=float)', fi.loc(node))
+        else:
+            ctx.ok(f'{f.cls}.contains', 'no product/power of possibly-integer coordinate arrays')
+    ctx.note(f'R9 analysed {len(lint.done)} function instances reachable from {n} contains() methods')
+
+
 RULES = [
     RuleDef('R1', 'membership predicate = geometric definition (circle, ellipse, rectangle)', r1, 3),
     RuleDef('R2', 'polygon kernel: cyclic neighbour, even-odd crossing, parity; argument order', r2, 2),
@@ -619,4 +838,5 @@ RULES = [
     RuleDef('R6', 'result shape provenance (rank promotion undone)', r6, 7),
     RuleDef('R7', 'scalar-only `in` operator', r7, 1),
     RuleDef('R8', 'geometry reads current parameters only (no constructor-time cache)', r8, 12),
+    RuleDef('R9', 'integer positions: no product/power of possibly-integer coordinate arrays in contains()', r9, 6),
 ]
